@@ -351,6 +351,12 @@ def gen_items(rng, tier):
     items += rich_items(rng, quick)
     items += modifying_items(rng, quick)
     items += shared_or_items(rng, quick)
+    # (v) strengthening round 3: brace-less forms x body kind x chain position x follower x enclosing block; random nests
+    # in which every one-statement body that may be written without braces is (with probability 0.6)
+    items += G.braceless_items(rng, quick)
+    for i in range(120 if quick else 1500):
+        p = G.random_program(rng, depth=rng.choice([2, 3, 3]), loops=rng.random() < 0.7, braceless_loops=True)
+        items.append(dict(prog=G.mark_braceless(rng, p, 0.75), cert=i % 2, stream="random-nested-braceless"))
     return items
 
 
@@ -366,7 +372,7 @@ def main(tier: str) -> int:
         "the harness; c03_gen.py prints formulas to source text / tokens (shared with C03's check)",
         "brace-less bodies that are themselves an if/loop: the harness writes the tree as JMC reads it (a following `else` continues the "
         "OUTER pending chain, unlike JavaScript's nearest-if rule); several user functions: compiled in source order with one numbering state",
-        "outside the model: `if (...) expand {...}`, `$if`, switch (C06), body commands that are `execute` with sub-clauses "
+        "outside the model: `if (...) expand {...}` and `$if` (property C03's check covers both: Model/CondExpand.v), switch (C06), body commands that are `execute` with sub-clauses "
         "other than if/unless score and store (not in MC/Syntax.v)",
         "mcvm.py + the source-level interpreter in c04_gen.py: untrusted, used only to search for failing inputs",
     ]
@@ -386,11 +392,16 @@ def main(tier: str) -> int:
              "De Morgan, mixed atom spellings incl. truthiness and matches) in every condition position + random formulas to depth 4; bodies that "
              "CHANGE the tested variables (single statements and blocks, every brace style, every branch position); chains / sequences / nests / loops in "
              "which non-adjacent conditions share an identically written || part; brace-less bodies that are ifs or loops (dangling else); packs of "
-             "2-3 user functions calling each other.  distinct_nontrivial = distinct sources containing a chain with >= 2 parts (flag protocol exercised)",
+             "2-3 user functions calling each other.  Round 3: brace-less bodies (command, assignment to a tested variable, lone if with/without ||, if in if, "
+             "for / while with plain and || conditions, for holding a chain) x chain position (lone, first with else, else, last else-if, else-if before else, middle, "
+             "last of 3, else of 3, every body brace-less) x follower in the same block (none, say, chain, brace-less chain, while, for, do-while, for with ||, "
+             "brace-less else-if loop + loop) x enclosing block (function, for / while / do-while body, branch, else branch); random nests with brace-less bodies "
+             "wherever the grammar allows.  distinct_nontrivial = distinct sources containing a chain with >= 2 parts (flag protocol exercised)",
         correspondence="text of the user function and of every private function == Model (compile_body), compared in Coq",
         disagreements_checked=len(st["bad"]), semantic_runs=st["n_runs"], semantic_runs_skipped_divergent=st["n_skipped"],
         semantic_failures=len(st["sem_fail"]), compile_errors_expected_by_model=st["n_errors"],
         branch_histogram=st["tags"], streams=st["streams"],
+        braceless_bodies=sum(G.count_braceless(it["prog"]) for it in items),
         search="every case: emitted functions run in mcvm from every 0/1 assignment of the variables read (<=48 states, sampled beyond; "
                "thorough: also unset), say-trace and final user scores compared with the JavaScript meaning",
         not_modelled="Minecraft's maxCommandChainLength / recursion limits",
